@@ -246,7 +246,7 @@ else:
     shards.append(("pad", gen_pad()))
     shards.append(("domain", gen_domain(60)))
     for i in range(2):
-        shards.append(("many-sequences-%d" % i, gen_many(5000)))
+        shards.append(("many-sequences-%d" % i, gen_many(4000)))
 
 # RankType narrower than the total (defect fixed in /repo b429853: N was accumulated in RankType): the witnesses of
 # corpus/C08/narrow.txt and virtual_narrow.txt first, then generated cases; run right after the corpus.
